@@ -391,11 +391,13 @@ Section XSec.
     (forall k, bytes_eqb (bs "Type") k = false -> bytes_eqb RefWriter.K_Size k = false -> bytes_eqb (bs "W") k = false ->
                bytes_eqb (bs "Index") k = false -> bytes_eqb RefWriter.K_Length k = false ->
                bytes_eqb k K_Filter = false -> bytes_eqb k K_DecodeParms = false ->
-               dict_get xq_d k = match dict_get (a_trailer a) k with Some v => Some v | None => dict_get prevl k end).
+               dict_get xq_d k = match dict_get (a_trailer a) k with Some v => Some v | None => dict_get prevl k end) /\
+    dict_get xq_t Xref.K_Size = Some (OInt (Z.of_N size)).
   Lemma xq_all : xq_facts.
   Proof.
     split; [exact xq_top_ok|]. split; [exact xq_parse|]. split; [exact xq_t_prev|]. split; [exact xq_t_none|].
-    split; [exact xq_t_wf|]. split; [exact xq_numb_nodup|]. split; [exact xq_t_get|exact xq_get_other].
+    split; [exact xq_t_wf|]. split; [exact xq_numb_nodup|]. split; [exact xq_t_get|]. split; [exact xq_get_other|].
+    rewrite xq_t_get by reflexivity. apply dict_get_denote. exact xq_get_size.
   Qed.
 End XSec.
 
